@@ -659,6 +659,23 @@ def overlay_extent_and_precedence(ctx: Ctx, py: PyProgram, rs: RustProgram) -> N
                 ctx.violation("C11.6/overlay-extent", key_of(MEM_PY, f"PCE500Memory.{fn.name}", "overlay end != start + len(data) - 1"),
                               f"{fn.name} builds an overlay with end = {linform.show(bad[0])} over data of length {linform.show(l0)} starting at {linform.show(s0)}: the inclusive end should be {linform.show(want)}; "
                               "the window is longer than its image, so the byte behind a read-only image silently drops stores (or, if shorter, the last byte falls through to the base memory)", f"{MEM_PY}:{c.lineno}")
+    # (a2) who may change a window's write protection: the card's writable flag is set where a card is loaded (from the caller's
+    # argument) and in the constructor - presence toggles, resets and accesses leave it alone
+    WRITABLE_OWNERS = {"__init__": "power-on default", "load_memory_card": "the caller states whether the card is write-protected"}
+    pm = py.need_cls(mod, "PCE500Memory")
+    k_w = 0
+    for mname, m in pm.methods.items():
+        for a in ast.walk(m):
+            if isinstance(a, (ast.Assign, ast.AnnAssign, ast.AugAssign)):
+                for t in (a.targets if isinstance(a, ast.Assign) else [a.target]):
+                    if isinstance(t, ast.Attribute) and attr_chain(t.value) == "self" and "writable" in t.attr:
+                        k_w += 1
+                        if mname not in WRITABLE_OWNERS:
+                            ctx.violation("C11.4/write-protect-owner", key_of(MEM_PY, f"PCE500Memory.{mname}", f"self.{t.attr} changed outside the loader"),
+                                          f"PCE500Memory.{mname} assigns `{unparse(a)[:60]}`: the write-protect state given when the card was loaded is changed by something else, so stores into a "
+                                          "read-only window start to stick (a write to a read-only window changes what is read)", f"{MEM_PY}:{a.lineno}")
+    ctx.need(k_w >= 2, f"PCE500Memory: stores to the card write-protect flag not found ({k_w})")
+    ctx.instance("C11.4/write-protect-owner", "stores to the memory card's writable flag, each in the constructor or the loader", k_w, 2)
     ctx.instance("C11.6/overlay-extent", "data overlays built from a start and a data length: inclusive end == start + len - 1", n, 2)
     # (b)
     rel = rs.file_for(MEM_RS)
